@@ -5,6 +5,7 @@
   Used by C01, C02, C05, C06, C07, C09.
 -/
 import Distill.Proofs.TextRender
+import Distill.Proofs.MediaRender
 import Distill.Gen.Funcs
 namespace Distill.RenderProps
 open Distill
@@ -97,6 +98,84 @@ theorem non_nestable_root_emits_outer (A : CAtoms) (abs absSet : String → Stri
 theorem title_text_renders_empty (A : CAtoms) (abs absSet : String → String) (textOnly : Bool) (ids : List Nat) (top : Node) :
     textOutput A abs absSet true textOnly ids top = some [] := by
   simp [textOutput]
+
+/-! ## the other element kinds (model: Distill.Model.MediaRender, stage `mediarender`) -/
+
+theorem media_source_tie : Gen.mediaRenderBodies = Gen.mediaRenderBodiesExpected := by rfl
+
+/-- **C05.** Every attribute in the serialised tree of an image, a figure (image and caption), a
+video and a data table is allow-listed and neither an event handler nor id/class/style/data-*. -/
+theorem media_attrs_safe (A : CAtoms) (abs absSet : String → String) (el caption : Node) :
+    (imageClone abs absSet el).allAttrsSafe = true ∧
+    (videoTree abs absSet el).allAttrsSafe = true ∧
+    (∀ f, figureTree A abs absSet el caption = some f → f.allAttrsSafe = true) ∧
+    (∀ c, cloneAndProcessTree A abs absSet el = some c → c.allAttrsSafe = true) :=
+  ⟨imageClone_safe abs absSet el, videoTree_safe abs absSet el,
+   fun f h => figureTree_safe A abs absSet el caption f h,
+   fun c h => cloneAndProcessTree_safe A abs absSet el c h⟩
+
+/-- **C05.** An embed placeholder: the wrapper carries exactly the three markers the distiller
+writes; below it every attribute is safe and no script or style element survives. -/
+theorem embed_placeholder_inert (type id : String) (el : Node) :
+    (embedTree type id el).attrs = [⟨"class", "embed-placeholder"⟩, ⟨"data-type", type⟩, ⟨"data-id", id⟩] ∧
+    (embedTree type id el).tag = "div" ∧
+    allAttrsSafeL (embedTree type id el).kids = true ∧
+    (∀ k ∈ (embedTree type id el).kids,
+      (k.tag = "blockquote" ∨ k.tag = "iframe") ∧ ∀ t ∈ tagsL k.kids, t ≠ "script" ∧ t ≠ "style") :=
+  ⟨rfl, rfl, embedKids_safe el, embedKids_no_script el⟩
+
+/-- **C06.** Image and video clones: every `src` of img/source/track/video and every `srcset` is
+empty or an image of the resolver, the video's own poster too; table and caption clones: all four
+URL-bearing attributes. -/
+theorem media_urls_abs (A : CAtoms) (abs absSet : String → String) (el : Node) :
+    (imageClone abs absSet el).allSrcAbs abs absSet ∧
+    (videoTree abs absSet el).allSrcAbs abs absSet ∧
+    (∀ a ∈ posterAbs abs el.attrs, a.key = "poster" → IsImg abs a.val) ∧
+    (∀ c, cloneAndProcessTree A abs absSet el = some c → c.allUrlsAbs abs absSet) :=
+  ⟨imageClone_srcAbs abs absSet el, videoTree_srcAbs abs absSet el, posterAbs_spec abs el.attrs,
+   fun c h => cloneAndProcessTree_abs A abs absSet el c h⟩
+
+/-- **C04.** A table / caption clone holds only text nodes `GetOutputNodes` collected, and nothing
+below an element the visibility test rejects, or below script / style, is collected. -/
+theorem table_clone_visible_only (A : CAtoms) (abs absSet : String → String) (root c : Node)
+    (h : cloneAndProcessTree A abs absSet root = some c) :
+    c.textIds = root.textIds.filter (fun i => (outputIds A root).contains i) :=
+  cloneAndProcessTree_textIds A abs absSet root c h
+
+theorem hidden_not_collected (A : CAtoms) (i : Nat) (t : String) (attrs : List Attr) (ks : List Node)
+    (h : visible A i t attrs = false ∨ t = "script" ∨ t = "style") :
+    outputIds A (.elem i t attrs ks) = [] :=
+  outputIds_hidden A i t attrs ks h
+
+/-- **C09.** What an image / figure contributes to ContentImages is, in document order, src and
+srcset URLs of elements of the very clone its HTML view serialises; likewise for a table (`img` and
+`source` being void elements); the document concatenates the lists of its content elements. -/
+theorem image_urls_from_clone (abs absSet : String → String) (setURLs : String → List String) (el : Node) :
+    (imageURLs abs absSet setURLs el).Sublist ((imageClone abs absSet el).imageCands setURLs) :=
+  imageURLsOf_sublist setURLs _
+
+theorem table_urls_from_clone (A : CAtoms) (abs absSet : String → String) (setURLs : String → List String)
+    (table c : Node) (h : cloneAndProcessTree A abs absSet table = some c) (hv : voidLeavesL c.kids) :
+    (tableImageURLs A abs absSet setURLs table).Sublist (imageCandsL setURLs c.kids) := by
+  simp only [tableImageURLs, h]
+  exact tableImageURLsBelow_sublist setURLs c.kids hv
+
+theorem doc_image_urls_spec (es : List (Bool × List String)) :
+    docImageURLs es = ((es.filter (·.1)).map (·.2)).flatten :=
+  docImageURLs_spec es
+
+/-! non-vacuity -/
+def exPicture : Node :=
+  .elem 0 "picture" [⟨"class", "c"⟩] [.elem 1 "source" [⟨"srcset", "a.webp 1x"⟩, ⟨"onload", "x()"⟩] [],
+                                      .elem 2 "img" [⟨"src", "b.jpg"⟩, ⟨"srcset", "c.jpg 2x"⟩, ⟨"id", "i"⟩] []]
+example : String.ofList (imageOutput (fun s => "http://e/" ++ s) (fun s => "S(" ++ s ++ ")") false exPicture) =
+    "<picture><source srcset=\"S(a.webp 1x)\"/><img src=\"http://e/http://e/b.jpg\" srcset=\"S(c.jpg 2x)\"/></picture>" := by
+  decide +kernel
+example : imageURLs id id (fun s => [s]) exPicture = ["a.webp 1x", "c.jpg 2x"] := by decide +kernel
+example : String.ofList (embedOutput false "twitter" "55"
+    (.elem 0 "blockquote" [⟨"class", "twitter-tweet"⟩] [.elem 1 "p" [] [.text 2 "w"], .elem 3 "script" [⟨"src", "x.js"⟩] []])) =
+    "<div class=\"embed-placeholder\" data-type=\"twitter\" data-id=\"55\"><blockquote><p>w</p></blockquote></div>" := by
+  decide +kernel
 
 /-! non-vacuity: a link inside an inline element inside a heading; the window is the single text
 node, the clone climbs `em → a → h2`, the link is resolved and `id`/`onclick` are gone -/
